@@ -1,6 +1,6 @@
 (* C02 — top-level results assembled from Step.v / Htp.v *)
 From OlaBase Require Import Bytes.
-From C02 Require Import Gen Model Spec Lemmas Inv Prims Dup Ops Step Htp.
+From C02 Require Import Gen Model Spec Lemmas Text Inv Prims Dup Ops Step Htp Raw.
 Local Open Scope N_scope.
 
 Theorem step_correct fresh s o : inv s -> op_ok o -> refines_step fresh s o.
@@ -9,6 +9,7 @@ Proof.
   - apply op_new; auto.
   - apply op_copynew; auto.
   - apply op_newdata; auto.
+  - apply op_newstr; auto.
   - apply op_destroy; auto.
   - apply op_assign; auto.
   - apply op_setbuf; auto.
@@ -18,6 +19,8 @@ Proof.
   - apply op_setrangetovalue; auto.
   - apply op_setrange; auto.
   - apply op_setchannel; auto.
+  - apply op_setraw; auto.
+  - apply op_setrangeraw; auto.
   - apply op_htpmerge; auto.
   - apply op_blackout; auto.
   - apply op_reset; auto.
@@ -56,9 +59,40 @@ Proof.
   - replace (N.to_nat L - N.to_nat ch)%nat with (S (N.to_nat L - N.to_nat ch - 1)) by lia. reflexivity.
 Qed.
 
+Lemma c_eq_correct s i j : inv s -> c_eq s i j = Ok (aquery (abs s) (QEq i j)).
+Proof.
+  intros Hi. unfold c_eq, aquery; rewrite ?a_live_abs.
+  - destruct (is_live s i) eqn:El; auto. destruct (is_live s j) eqn:Ej; auto. cbn [andb].
+    apply is_live_getb in El as (a & Ha). apply is_live_getb in Ej as (b & Hb). rewrite Ha, Hb. cbn [bind].
+    rewrite (aget_abs s i a Ha), (aget_abs s j b Hb).
+    pose proof (buf_view s i a Hi Ha) as Va. pose proof (buf_view s j b Hi Hb) as Vb.
+    assert (La : len (contents (abs_buf (heap s) a)) = m_len a).
+    { destruct (m_blk a). - destruct Va as (k & _ & L & Hl & -> & _). cbn. rewrite len_take. lia.
+      - destruct Va as (-> & ->). reflexivity. }
+    assert (Lb : len (contents (abs_buf (heap s) b)) = m_len b).
+    { destruct (m_blk b). - destruct Vb as (k & _ & L & Hl & -> & _). cbn. rewrite len_take. lia.
+      - destruct Vb as (-> & ->). reflexivity. }
+    destruct (N.eqb_spec (m_len a) (m_len b)) as [E|E].
+    2:{ do 2 f_equal. destruct (list_eqb _ _) eqn:X; auto. apply list_eqb_len in X. lia. }
+    destruct (m_blk a) as [ia|] eqn:Ema; destruct (m_blk b) as [ib|] eqn:Emb; cbn [same_blk].
+    + destruct Va as (ka & Hka & Lka & Hla & -> & _). destruct Vb as (kb & Hkb & Lkb & Hlb & -> & _). cbn [contents].
+      destruct (Nat.eqb_spec ia ib) as [->|Hne].
+      * rewrite Hka in Hkb. inversion Hkb; subst. rewrite E, list_eqb_refl. reflexivity.
+      * destruct (N.eqb_spec (m_len a) 0) as [H0|H0].
+        -- rewrite <- E, H0. reflexivity.
+        -- rewrite (Htp.pread_blk s ia ka 0 _ Hka Lka) by lia. cbn [bind].
+           rewrite (Htp.pread_blk s ib kb 0 _ Hkb Lkb) by lia. cbn [bind]. rewrite !drop_0, E. reflexivity.
+    + destruct Vb as (Hb0 & ->). destruct Va as (ka & _ & _ & _ & -> & _). cbn [contents].
+      destruct (N.eqb_spec (m_len a) 0) as [H0|H0]; [|lia]. rewrite H0. reflexivity.
+    + destruct Va as (Ha0 & ->). destruct Vb as (kb & _ & _ & _ & -> & _). cbn [contents].
+      rewrite Ha0. cbn [N.eqb]. rewrite <- E, Ha0. reflexivity.
+    + destruct Va as (_ & ->). destruct Vb as (_ & ->). reflexivity.
+Qed.
+
 Theorem query_correct s q : inv s -> cquery s q = Ok (aquery (abs s) q).
 Proof.
-  intros Hi. destruct q as [i|i ch|i n|i slot n|i|i|i j]; unfold cquery, aquery; rewrite ?a_live_abs.
+  intros Hi. destruct q as [i|i ch|i n|i slot n|i|i|i j|i j]; [| | | | | |exact (c_eq_correct s i j Hi)|];
+    unfold cquery, aquery; rewrite ?a_live_abs.
   - destruct (is_live s i) eqn:El; auto. apply is_live_getb in El as (b & Hb). rewrite Hb. cbn [bind].
     rewrite (aget_abs s i b Hb). pose proof (buf_view s i b Hi Hb) as V. destruct (m_blk b).
     + destruct V as (k & _ & L & Hl & -> & _). cbn [contents]. rewrite len_take. do 2 f_equal. lia.
@@ -91,31 +125,8 @@ Proof.
     + destruct V as (k & Hk & L & Hl & -> & _). cbn [contents].
       rewrite (Htp.pread_blk s id k 0 _ Hk L) by lia. cbn [bind]. rewrite drop_0. reflexivity.
     + destruct V as (_ & ->). reflexivity.
-  - destruct (is_live s i) eqn:El; auto. destruct (is_live s j) eqn:Ej; auto. cbn [andb].
-    apply is_live_getb in El as (a & Ha). apply is_live_getb in Ej as (b & Hb). rewrite Ha, Hb. cbn [bind].
-    rewrite (aget_abs s i a Ha), (aget_abs s j b Hb).
-    pose proof (buf_view s i a Hi Ha) as Va. pose proof (buf_view s j b Hi Hb) as Vb.
-    assert (La : len (contents (abs_buf (heap s) a)) = m_len a).
-    { destruct (m_blk a). - destruct Va as (k & _ & L & Hl & -> & _). cbn. rewrite len_take. lia.
-      - destruct Va as (-> & ->). reflexivity. }
-    assert (Lb : len (contents (abs_buf (heap s) b)) = m_len b).
-    { destruct (m_blk b). - destruct Vb as (k & _ & L & Hl & -> & _). cbn. rewrite len_take. lia.
-      - destruct Vb as (-> & ->). reflexivity. }
-    destruct (N.eqb_spec (m_len a) (m_len b)) as [E|E].
-    2:{ do 2 f_equal. destruct (list_eqb _ _) eqn:X; auto. apply list_eqb_len in X. lia. }
-    destruct (m_blk a) as [ia|] eqn:Ema; destruct (m_blk b) as [ib|] eqn:Emb; cbn [same_blk].
-    + destruct Va as (ka & Hka & Lka & Hla & -> & _). destruct Vb as (kb & Hkb & Lkb & Hlb & -> & _). cbn [contents].
-      destruct (Nat.eqb_spec ia ib) as [->|Hne].
-      * rewrite Hka in Hkb. inversion Hkb; subst. rewrite E, list_eqb_refl. reflexivity.
-      * destruct (N.eqb_spec (m_len a) 0) as [H0|H0].
-        -- rewrite <- E, H0. reflexivity.
-        -- rewrite (Htp.pread_blk s ia ka 0 _ Hka Lka) by lia. cbn [bind].
-           rewrite (Htp.pread_blk s ib kb 0 _ Hkb Lkb) by lia. cbn [bind]. rewrite !drop_0, E. reflexivity.
-    + destruct Vb as (Hb0 & ->). destruct Va as (ka & _ & _ & _ & -> & _). cbn [contents].
-      destruct (N.eqb_spec (m_len a) 0) as [H0|H0]; [|lia]. rewrite H0. reflexivity.
-    + destruct Va as (Ha0 & ->). destruct Vb as (kb & _ & _ & _ & -> & _). cbn [contents].
-      rewrite Ha0. cbn [N.eqb]. rewrite <- E, Ha0. reflexivity.
-    + destruct Va as (_ & ->). destruct Vb as (_ & ->). reflexivity.
+  - rewrite (c_eq_correct s i j Hi). cbn [bind]. unfold aquery. rewrite !a_live_abs.
+    destruct (is_live s i && is_live s j); reflexivity.
 Qed.
 
 (* ---- facts about the value model *)
@@ -150,6 +161,10 @@ Proof.
     apply upd_aget_same; auto.
   - destruct p; cbn [fst snd] in *; auto. destruct H as [H|H]; [|discriminate]. inversion H as [H1].
     rewrite (a_range_fail _ _ _ H1). apply upd_aget_same; auto.
+  - destruct (aget A j); cbn [fst snd] in *; auto. destruct H; discriminate.
+  - destruct (aget A j); cbn [fst snd] in *; auto. destruct H as [H|H]; [|discriminate]. inversion H as [H1].
+    rewrite (a_range_fail _ _ _ H1). apply upd_aget_same.
+    repeat match goal with H : _ && _ = true |- _ => apply andb_prop in H as (? & ?) end. assumption.
 Qed.
 
 Lemma abs_size_bound s i : inv s -> len (contents (aget (abs s) i)) <= 512.
@@ -190,7 +205,7 @@ Proof. unfold abs, init_st. cbn. induction n; cbn; congruence. Qed.
 Definition query_slots (q : query) : list nat :=
   match q with
   | QSize i | QGetCh i _ | QGetBuf i _ | QGetRange i _ _ | QGetStr i | QToString i => [i]
-  | QEq i j => [i; j]
+  | QEq i j | QNe i j => [i; j]
   end.
 
 Lemma aquery_ext A A' q :
@@ -305,3 +320,191 @@ Lemma self_set_refuted_full :
   exists ops, Forall op_ok ops /\ crun_unfixed [] (init_st 2) ops = Hz UseAfterFree.
 Proof. exists self_set_witness. split; [exact self_set_witness_ok|exact self_set_uaf]. Qed.
 
+
+(* ---- extension round: traces, text conversion, destroy-all, uninitialised memory *)
+Lemma trace_correct fresh ops : forall s,
+  inv s -> Forall op_ok ops ->
+  exists s', ctrace fresh s ops = Ok (s', atrace (abs s) ops) /\ inv s' /\ abs s' = arun (abs s) ops.
+Proof.
+  induction ops as [|o r IH]; intros s Hi Hok.
+  - exists s. auto.
+  - inversion Hok as [|? ? H1 H2]; subst.
+    destruct (step_correct fresh s o Hi H1) as (s1 & r1 & E & I1 & A1 & R1).
+    destruct (IH s1 I1 H2) as (s' & E' & I' & A'). exists s'. cbn [ctrace atrace arun]. rewrite E. cbn [bind fst snd].
+    rewrite E'. cbn [bind fst snd]. rewrite <- A1, R1. auto.
+Qed.
+
+Lemma trace_full :
+  forall fresh slots ops, Forall op_ok ops ->
+  exists s, ctrace fresh (init_st slots) ops = Ok (s, atrace (repeat None slots) ops) /\
+            inv s /\ abs s = arun (repeat None slots) ops.
+Proof.
+  intros fresh slots ops H.
+  destruct (trace_correct fresh ops (init_st slots) (inv_init slots) H) as (s & E & I & A).
+  rewrite abs_init in *. eauto.
+Qed.
+
+(* what cannot be observed: the contents of uninitialised memory *)
+Lemma uninit_invisible_full :
+  forall fresh1 fresh2 slots ops q, Forall op_ok ops ->
+  exists s1 s2 rets a,
+    ctrace fresh1 (init_st slots) ops = Ok (s1, rets) /\ ctrace fresh2 (init_st slots) ops = Ok (s2, rets) /\
+    cquery s1 q = Ok a /\ cquery s2 q = Ok a.
+Proof.
+  intros f1 f2 slots ops q H.
+  destruct (trace_full f1 slots ops H) as (s1 & E1 & I1 & A1).
+  destruct (trace_full f2 slots ops H) as (s2 & E2 & I2 & A2).
+  exists s1, s2, (atrace (repeat None slots) ops), (aquery (arun (repeat None slots) ops) q).
+  split; [exact E1|]. split; [exact E2|].
+  rewrite (query_correct s1 q I1), (query_correct s2 q I2), A1, A2. auto.
+Qed.
+
+(* reachable states store bytes *)
+Lemma reach_bytes fresh slots ops :
+  Forall op_ok ops -> Forall op_bytes ops ->
+  exists s, crun fresh (init_st slots) ops = Ok s /\ inv s /\ abytes (abs s).
+Proof.
+  intros H Hb. destruct (reach fresh slots ops H) as (s & E & I & A). exists s. split; auto. split; auto.
+  rewrite A. apply arun_bytes; auto. apply abytes_init.
+Qed.
+
+(* SetFromString(ToString()) of any live buffer reproduces its slots, in any live buffer *)
+Lemma text_roundtrip_full :
+  forall fresh slots ops i j, Forall op_ok ops -> Forall op_bytes ops ->
+  exists s, crun fresh (init_st slots) ops = Ok s /\
+    (is_live s i = true -> is_live s j = true ->
+     exists text s', cquery s (QToString j) = Ok (ABytes text) /\
+       cstep fresh s (OSetFromString i text) = Ok (s', RBool true) /\
+       aget (abs s') i = Some (contents (aget (abs s) j)) /\
+       forall k, cquery s' (QGetStr i) = Ok (ABytes k) -> cquery s (QGetStr j) = Ok (ABytes k)).
+Proof.
+  intros fresh slots ops i j H Hb. destruct (reach_bytes fresh slots ops H Hb) as (s & E & I & B).
+  exists s. split; [exact E|]. intros Li Lj.
+  exists (join_dec (contents (aget (abs s) j))).
+  destruct (step_correct fresh s (OSetFromString i (join_dec (contents (aget (abs s) j)))) I) as (s' & r & E' & I' & A' & R');
+    [exact Logic.I|].
+  unfold astep in A', R'. rewrite a_live_abs, Li in A', R'. cbn [fst snd] in A', R'. subst r.
+  exists s'. split; [|split; [exact E'|]].
+  - rewrite (query_correct s _ I). unfold aquery. rewrite a_live_abs, Lj. reflexivity.
+  - assert (Ev : take 512 (sfs_values (join_dec (contents (aget (abs s) j)))) = contents (aget (abs s) j)).
+    { rewrite sfs_join_dec by (apply abytes_aget; auto). apply take_all. apply abs_size_bound; auto. }
+    rewrite Ev in A'.
+    assert (Hlt : (i < length (abs s))%nat).
+    { apply is_live_getb in Li as (b & Hb'). eapply live_lt; eauto. }
+    assert (Ag : aget (abs s') i = Some (contents (aget (abs s) j))) by (rewrite A'; apply aget_upd_eq; auto).
+    split; [exact Ag|]. intros k Hk.
+    rewrite (query_correct s' _ I') in Hk. rewrite (query_correct s _ I).
+    unfold aquery in *. rewrite a_live_abs in *. rewrite Lj.
+    assert (Li' : is_live s' i = true).
+    { rewrite <- a_live_abs, A'. unfold a_live. rewrite nth_upd_eq by auto. reflexivity. }
+    rewrite Li' in Hk. rewrite Ag in Hk. cbn [contents] in Hk. exact Hk.
+Qed.
+
+(* documented-format text: every item denotes its value, a dropped item 0, at most 512 items count *)
+Lemma sfs_documented_step :
+  forall fresh s i items, inv s -> is_live s i = true ->
+  forallb item_ok items = true -> join_items (map item_text items) <> [] ->
+  exists s', cstep fresh s (OSetFromString i (join_items (map item_text items))) = Ok (s', RBool true) /\
+             inv s' /\ aget (abs s') i = Some (take 512 (map item_val items)).
+Proof.
+  intros fresh s i items I Li Hok Hne.
+  destruct (step_correct fresh s (OSetFromString i (join_items (map item_text items))) I Logic.I)
+    as (s' & r & E' & I' & A' & R').
+  unfold astep in A', R'. rewrite a_live_abs, Li in A', R'. cbn [fst snd] in A', R'. subst r.
+  exists s'. split; [exact E'|]. split; [exact I'|]. rewrite A', sfs_documented by auto.
+  apply aget_upd_eq. apply is_live_getb in Li as (b & Hb'). eapply live_lt; eauto.
+Qed.
+
+(* ---- destroying every object frees every block *)
+Lemma astep_length A o : length (fst (astep A o)) = length A.
+Proof.
+  destruct o; unfold astep;
+    repeat match goal with
+           | |- context [if ?c then _ else _] => destruct c
+           | |- context [match ?x with XNull => _ | XExt _ => _ end] => destruct x
+           | |- context [match aget ?A ?i with Some _ => _ | None => _ end] => destruct (aget A i)
+           end; cbn [fst]; rewrite ?upd_length; reflexivity.
+Qed.
+Lemma arun_length ops : forall A, length (arun A ops) = length A.
+Proof. induction ops as [|o r IH]; intros A; cbn [arun]; auto. rewrite IH. apply astep_length. Qed.
+Lemma arun_app a : forall A b, arun A (a ++ b) = arun (arun A a) b.
+Proof. induction a as [|o r IH]; intros A b; cbn [arun app]; auto. Qed.
+
+Lemma a_live_destroy A k i :
+  a_live (fst (astep A (ODestroy k))) i = if Nat.eqb i k then false else a_live A i.
+Proof.
+  unfold astep. destruct (a_live A k) eqn:Ek; cbn [fst].
+  - unfold a_live in *. destruct (Nat.eqb_spec i k) as [->|Hn].
+    + destruct (nth_error A k) eqn:E; [|discriminate]. rewrite nth_upd_eq by (eapply nth_some_lt; eauto). reflexivity.
+    + rewrite nth_upd_neq by auto. reflexivity.
+  - destruct (Nat.eqb_spec i k) as [->|Hn]; auto.
+Qed.
+Lemma a_live_destroys l : forall A i,
+  a_live (arun A (map ODestroy l)) i = a_live A i && negb (existsb (Nat.eqb i) l).
+Proof.
+  induction l as [|k l IH]; intros A i; cbn [map arun existsb].
+  - rewrite andb_true_r. reflexivity.
+  - rewrite IH, a_live_destroy. destruct (Nat.eqb i k); cbn; auto. rewrite andb_false_r. reflexivity.
+Qed.
+
+Lemma destroy_all_full :
+  forall fresh slots ops, Forall op_ok ops ->
+  exists s, crun fresh (init_st slots) (ops ++ destroy_all slots) = Ok s /\
+            (forall i, is_live s i = false) /\ (forall id, hget (heap s) id = None).
+Proof.
+  intros fresh slots ops H.
+  assert (H' : Forall op_ok (ops ++ destroy_all slots)).
+  { apply Forall_app. split; auto. unfold destroy_all. apply Forall_forall. intros o Ho.
+    apply in_map_iff in Ho as (k & <- & _). exact Logic.I. }
+  destruct (reach fresh slots (ops ++ destroy_all slots) H') as (s & E & I & A).
+  exists s. split; [exact E|].
+  assert (D : forall i, is_live s i = false).
+  { intros i. rewrite <- a_live_abs, A, arun_app. unfold destroy_all. rewrite a_live_destroys.
+    destruct (Nat.lt_ge_cases i slots) as [Hlt|Hge].
+    - assert (X : existsb (Nat.eqb i) (seq 0 slots) = true).
+      { apply existsb_exists. exists i. split; [apply in_seq; lia|apply Nat.eqb_refl]. }
+      rewrite X, andb_false_r. reflexivity.
+    - unfold a_live. assert (L : length (arun (repeat None slots) ops) = slots) by (rewrite arun_length, repeat_length; auto).
+      destruct (nth_error (arun (repeat None slots) ops) i) eqn:En; [|reflexivity].
+      apply nth_some_lt in En. lia. }
+  split; [exact D|]. exact (no_leak s I D).
+Qed.
+
+Lemma slots_are_bytes_full :
+  forall fresh slots ops i, Forall op_ok ops -> Forall op_bytes ops ->
+  exists s, crun fresh (init_st slots) ops = Ok s /\
+    (is_live s i = true -> exists l, cquery s (QGetStr i) = Ok (ABytes l) /\ bytes_ok l = true).
+Proof.
+  intros fresh slots ops i H Hb. destruct (reach_bytes fresh slots ops H Hb) as (s & E & I & B).
+  exists s. split; [exact E|]. intros Li. exists (contents (aget (abs s) i)).
+  rewrite (query_correct s _ I). unfold aquery. rewrite a_live_abs, Li. split; [reflexivity|].
+  apply abytes_aget; auto.
+Qed.
+
+(* the plugins' idiom  a.SetRange(0, b.GetRaw(), b.Size())  from any aliasing state: a (initialised, not
+   longer than b) becomes a copy of b, b is untouched *)
+Lemma raw_copy_step :
+  forall fresh s i j l c, inv s -> i <> j ->
+  is_live s i = true -> is_live s j = true -> aget (abs s) j = Some l -> aget (abs s) i = Some c ->
+  len c <= len l ->
+  exists s', cstep fresh s (OSetRangeRaw i 0 j 0 (len l)) = Ok (s', RBool true) /\ inv s' /\
+             aget (abs s') i = Some l /\ aget (abs s') j = Some l.
+Proof.
+  intros fresh s i j l c I Hn Li Lj Ej Ei Lc.
+  destruct (step_correct fresh s (OSetRangeRaw i 0 j 0 (len l)) I Logic.I) as (s' & r & E & I' & A' & R').
+  assert (L5 : len l <= 512).
+  { pose proof (abs_size_bound s j I) as Bj. rewrite Ej in Bj. exact Bj. }
+  assert (Hlt : (i < length (abs s))%nat).
+  { apply is_live_getb in Li as (b & Hb'). eapply live_lt; eauto. }
+  unfold astep in A', R'. rewrite !a_live_abs, Li, Lj in A', R'.
+  destruct (Nat.eqb_spec i j); [contradiction|]. cbn [andb negb] in A', R'.
+  rewrite Ej, Ei in A', R'. cbn [contents] in A', R'. rewrite N.add_0_l, N.leb_refl in A', R'.
+  unfold a_range in A', R'. change (512 <=? 0) with false in A', R'.
+  destruct (N.ltb_spec (len c) 0); [lia|]. cbn [fst snd] in A', R'. subst r.
+  exists s'. split; [exact E|]. split; [exact I'|]. rewrite A'. split.
+  - rewrite aget_upd_eq by auto. f_equal.
+    unfold a_store. rewrite take_0, N.sub_0_r, drop_0. cbn [app].
+    replace (N.min (len l) 512) with (len l) by lia. rewrite (take_all (len l) l) by lia.
+    rewrite N.add_0_l, drop_all by lia. apply app_nil_r.
+  - rewrite aget_upd_neq by auto. exact Ej.
+Qed.
